@@ -500,7 +500,9 @@ func runC06(w *World) {
 			fmt.Fprintf(os.Stderr, "DEBUG follower aofsz=%d faofsz=%d leader aofsz=%d\n", fi.srv.aofsz, fi.srv.faofsz, L.inst.srv.aofsz)
 		}
 		class := "C06/caught-up"
-		if staleSize {
+		if publishInterleaved(fi) {
+			class = "C06/caught-up-publish-interleaved"
+		} else if staleSize {
 			class = "C06/caught-up-stale-size"
 		} else if len(renamed) > 0 {
 			// attributed to the rename finding only if, for some admissible prefix, every
@@ -678,7 +680,9 @@ func runC06(w *World) {
 		} else {
 			lt, ft := L.inst.dump().text(true), fi.dump().text(true)
 			class := "C06/diverged"
-			if staleSize {
+			if publishInterleaved(fi) {
+				class = "C06/diverged-publish-interleaved"
+			} else if staleSize {
 				class = "C06/diverged-stale-size"
 			} else if len(renamed) > 0 {
 				rc.hc.lm.poll()
@@ -815,4 +819,21 @@ func firstDiff(a, b string) string {
 		}
 	}
 	return "(no difference)"
+}
+
+// publishInterleaved reports whether the follower applied a command into which a forwarded PUBLISH
+// message had been spliced: the leader's publish forwarder writes to the replication connection
+// from its own goroutine while the log streamer writes the log in 32 KB / 8 KB pieces, so a
+// published message can land in the middle of a command; the RESP reader then sees the PUBLISH
+// array as one (nested) argument of that command. Known finding C06-publish-interleaved.
+func publishInterleaved(fi *Inst) bool {
+	ents, _, _ := parseLog(fi.aofStream())
+	for _, e := range ents {
+		for _, a := range e.args {
+			if strings.HasPrefix(a, "[PUBLISH ") {
+				return true
+			}
+		}
+	}
+	return false
 }
